@@ -907,3 +907,9 @@ end Agd.Serve
 #print axioms Agd.Tie.TrC01.httpRequestToMsgGet_tr
 #print axioms Agd.Tie.TrC01.urlQueryParameterToBoolean_tr
 #print axioms Agd.Tie.TrC01.serveDoH_tr
+#print axioms Agd.Tie.TrC01.remoteAddr_flow
+#print axioms Agd.Tie.TrC01.remoteAddr_panics_iff
+#print axioms Agd.Tie.TrC01.cutList_percent
+#print axioms Agd.Tie.TrC01.cutList_none
+#print axioms Agd.Tie.TrC01.remoteAddr_zone
+#print axioms Agd.Tie.TrC01.remoteAddr_nozone
